@@ -214,6 +214,9 @@ def type_change_probe(ctx, nptdms, stats):
                 else:
                     with TdmsWriter(p) as w:
                         w.write_segment([ChannelObject("g", "c", arrays[a]), ChannelObject("g", "other", np.array([7, 8], dtype=np.int16))])
+                        if it % 2:
+                            # a write that carries no value and no type in between (it must not make the writer forget the type)
+                            w.write_segment([ChannelObject("g", "c", np.array([], dtype=object))])
                         w.write_segment([ChannelObject("g", "c", arrays[b])])
             except Exception as ex:  # noqa: refused = not an accepted sequence
                 accepted, err = False, ex
